@@ -85,6 +85,11 @@ _METHODS = {
     (str, "rjust"),
     (str, "format"),
     (str, "startswith"),
+    (str, "isdigit"),
+    (str, "isalpha"),
+    (str, "isspace"),
+    (str, "rstrip"),
+    (str, "lstrip"),
     (str, "endswith"),
     (dict, "keys"),
     (dict, "values"),
